@@ -3,6 +3,7 @@ import Kopf.Drv.C02
 import Kopf.Drv.C05
 import Kopf.Model.C14_Resume
 import Kopf.Model.C14_Results
+import Kopf.Model.C14_Memories
 open Lean
 namespace Kopf.Drv.C14
 open Kopf.C14 Kopf
@@ -72,6 +73,23 @@ def shapeOf? (j : Json) : Option ResultShape := do
   | [a, b, c, d, e] => some { isNone := a, isMapping := b, copyable := c, jsonRaw := d, jsonPatch := e }
   | _ => none
 
+/-- what `_build_key` reads of a raw body: every part a string or null (a missing part must be sent as null) -/
+def identOf? (j : Json) : Option C14.Ident := do
+  let f (k : String) : Option (Option String) := do jOpt? jStr? (← jField? j k)
+  some { uid := ← f "uid", kind := ← f "kind", apiVersion := ← f "apiVersion", name := ← f "name", ns := ← f "namespace",
+         created := ← f "creationTimestamp" }
+
+/-- The operator's container over one incarnation: entries `[ident, mem]` in the order of happening, `mem` = the
+    object's memory as the entry LEFT it (null: forgotten / never remembered). Answer: for every entry, the key and the
+    memory the container model finds for the object right BEFORE it. -/
+def threadJson (entries : List (C14.Ident × Option Mem)) : Json :=
+  let rec go (M : Memories) : List (C14.Ident × Option Mem) → List Json
+    | [] => []
+    | (o, after) :: rest =>
+        let k := buildKey o
+        Json.mkObj [("key", .str k), ("mem", memJson (M.get k))] :: go (M.put k after) rest
+  .arr (go [] entries).toArray
+
 def handle : DrvHandler := fun op args =>
   match op, args with
   | "C14.step", [j] => do
@@ -84,6 +102,12 @@ def handle : DrvHandler := fun op args =>
       let r := stepR decls mem P e rs lost
       some (ok (Json.mkObj [("step", stepJson' decls mem e univ r), ("deliveryRaises", .bool (deliveryRaises rs)),
                             ("wireRaises", .bool (wireRaises rs))]))
+  | "C14.thread", [j] => do         -- one incarnation: every cycle / admission request of every object, in order
+      let entries ← (← jArr? j).mapM (fun x => do
+        match (← jArr? x) with
+        | [o, m] => do pure (← identOf? o, ← memOf? m)
+        | _ => none)
+      some (ok (threadJson entries))
   | "C14.admission", [j] => do      -- one admission request served for the object: the memory before → after
       let mem ← memOf? (← jField? j "mem")
       let create ← jBool? (← jField? j "create")
